@@ -28,7 +28,7 @@ STR = lambda: shim.instance("builtins.str")  # noqa: E731
 ELL = lambda: shim.expr_stmt(shim.mk(shim.N.EllipsisExpr))  # noqa: E731
 N_TOP = 6
 N_MEMBER = 14
-MAX_TOP = 3 if THOROUGH else 2
+MAX_TOP = 2
 MAX_MEMBERS = 2
 
 
@@ -197,9 +197,9 @@ def decode_module(sel, cur, mod: str = "m", swap: bool = False) -> Built:
         elif k == 2:
             nm = f"C{i}"
             cq, cid = f"{MQ}.{nm}", f"{MID}/{nm}"
-            nmem = rd(sel, cur, (MAX_MEMBERS if THOROUGH or ntop == 1 else 1) + 1)
-            # superclass list (quick: only for classes with an empty body: none / (ValueError, Base0) / (Base0, ValueError); thorough also the single ones)
-            sup = [(), ("ValueError", "Base0"), ("Base0", "ValueError"), ("ValueError",), ("Base0",)][rd(sel, cur, 5 if THOROUGH else (3 if nmem == 0 else 1))]
+            nmem = rd(sel, cur, (MAX_MEMBERS if ntop == 1 else 1) + 1)
+            # superclass list (quick: only for classes with an empty body: none / (ValueError, Base0) / (Base0, ValueError); thorough: all five lists for every class of a one-definition module)
+            sup = [(), ("ValueError", "Base0"), ("Base0", "ValueError"), ("ValueError",), ("Base0",)][rd(sel, cur, 5 if THOROUGH and ntop == 1 else (3 if nmem == 0 else 1))]
             bases = []
             for sname in sup:
                 if sname == "ValueError":
